@@ -571,6 +571,8 @@ func genPoll(g *hx.Gen) {
 	}
 	bo := hx.Pick(r, []string{"0", "1", "3", "nil"})
 	g.Stat("op.poll")
+	hit("api-call", len(allCalls), call)
+	cross(g, []string{"call-" + call}, []string{"poll-final-" + final, fmt.Sprintf("polls-%d", min(polls, 3)), "backoff-" + bo})
 	g.Stat("poll.call=" + call)
 	g.Stat("poll.final=" + final)
 	g.Emit("http nurl=1 kid=1 bo=%s cancel=0 calls=%s resp=%s", bo, call, strings.Join(resp, ","))
@@ -595,15 +597,18 @@ func genHTTP(g *hx.Gen) {
 	}
 	hostile := r.Chance(1, 3) // otherwise mostly well-behaved server
 	var resp []string
+	var kinds []string // reply classes present in this script
 	for k := r.Range(len(calls), 6+5*len(calls)); k > 0; k-- {
 		if r.Chance(1, 25) {
 			resp = append(resp, "x")
 			g.Stat("reply.transport-error")
+			kinds = append(kinds, "reply-transport-error")
 			continue
 		}
 		if r.Chance(1, 40) {
 			resp = append(resp, "c")
 			g.Stat("ctx.cancelled-during-round-trip")
+			kinds = append(kinds, "reply-slow-cancelled")
 			continue
 		}
 		status, prob := 200, "-"
@@ -677,8 +682,35 @@ func genHTTP(g *hx.Gen) {
 				g.Stat("reply.nonce-header-empty")
 			}
 		}
+		switch {
+		case status >= 200 && status <= 299:
+			kinds = append(kinds, fmt.Sprintf("reply-%d", min(status, 203)))
+			hit("isRetriable", 4, "le399")
+		case strings.HasSuffix(strings.ToLower(prob), ":badnonce"):
+			kinds = append(kinds, "reply-badNonce")
+		case status == 429:
+			kinds = append(kinds, "reply-429")
+			hit("isRetriable", 4, "429")
+		case status >= 500:
+			kinds = append(kinds, "reply-5xx")
+			hit("isRetriable", 4, "ge500")
+		case status >= 400:
+			kinds = append(kinds, "reply-4xx-fatal")
+			hit("isRetriable", 4, "4xx")
+		default:
+			kinds = append(kinds, "reply-1xx-3xx")
+		}
+		if nonce == "-" {
+			kinds = append(kinds, "reply-no-nonce")
+		} else if strings.ContainsAny(nonce, "~+.") {
+			kinds = append(kinds, "reply-nonce-header-shape")
+		}
 		if status >= 200 && status <= 299 && r.Chance(3, 4) {
-			nonce += "@" + bodyToken(r, g, hx.Pick(r, bodyStates))
+			tok := bodyToken(r, g, hx.Pick(r, bodyStates))
+			if tok == "bad" {
+				kinds = append(kinds, "reply-body-not-json")
+			}
+			nonce += "@" + tok
 		}
 		resp = append(resp, fmt.Sprintf("%d:%s:%s", status, prob, nonce))
 	}
@@ -692,7 +724,23 @@ func genHTTP(g *hx.Gen) {
 		g.Stat("ctx.cancelled-during-backoff")
 	}
 	g.Stat("op.http")
-	g.Emit("http nurl=%d kid=%d bo=%s cancel=%d calls=%s resp=%s", r.Intn(4)/3^1, r.Intn(2), bo, cancel, strings.Join(calls, ","), hx.JoinStrs(resp))
+	nurl, kid := r.Intn(4)/3^1, r.Intn(2)
+	cfg := []string{fmt.Sprintf("nurl=%d", nurl), fmt.Sprintf("kid=%d", kid), "backoff-" + map[bool]string{true: "nil", false: "custom"}[bo == "nil"]}
+	if bo == "0" {
+		cfg = append(cfg, "backoff-0-retries")
+	}
+	if cancel > 0 {
+		cfg = append(cfg, "cancel-at-backoff")
+	}
+	var cs []string
+	for _, c := range calls {
+		cs = append(cs, "call-"+c)
+		hit("api-call", len(allCalls), c)
+	}
+	cross(g, cs, kinds)
+	cross(g, cs, cfg)
+	cross(g, kinds, cfg)
+	g.Emit("http nurl=%d kid=%d bo=%s cancel=%d calls=%s resp=%s", nurl, kid, bo, cancel, strings.Join(calls, ","), hx.JoinStrs(resp))
 }
 
 func genPool(g *hx.Gen) {
@@ -749,7 +797,9 @@ func gen(g *hx.Gen) {
 				ra = "bad"
 				g.Stat("dbo.retry-after-unparsable")
 			}
-			g.Emit("dbo n=%d ra=%s", hx.Pick(g.R, []int{-3, 0, 1, 2, 3, 4, 5, 6, 10, 29, 30, 31, 32, 64, 1000}), ra)
+			n := hx.Pick(g.R, []int{-3, 0, 1, 2, 3, 4, 5, 6, 10, 29, 30, 31, 32, 64, 1000})
+			hit("defaultBackoff-n", 4, map[bool]string{true: "lt1", false: map[bool]string{true: "gt30", false: map[bool]string{true: "ge5", false: "1to4"}[n >= 5]}[n > 30]}[n < 1])
+			g.Emit("dbo n=%d ra=%s", n, ra)
 			g.Stat("dbo.default-backoff")
 		} else if i%10 == 9 {
 			genPool(g)
@@ -757,6 +807,54 @@ func gen(g *hx.Gen) {
 			genPoll(g)
 		} else {
 			genHTTP(g)
+		}
+	}
+	flushTables(g)
+}
+
+
+// ------------------------------------------------------------------ coverage bookkeeping (pairs of features, table arms)
+
+var tableHits = map[string]map[string]bool{}
+var tableSize = map[string]int{}
+
+// hit records that arm `arm` of the table / switch `name` (which has `total` arms) was produced.
+func hit(name string, total int, arm string) {
+	if tableHits[name] == nil {
+		tableHits[name] = map[string]bool{}
+	}
+	tableHits[name][arm] = true
+	tableSize[name] = total
+}
+
+func flushTables(g *hx.Gen) {
+	for name, arms := range tableHits {
+		g.Stat(fmt.Sprintf("table.%s=%d/%d", name, len(arms), tableSize[name]))
+	}
+}
+
+// cross counts every pair (a, b) with a from one category of features and b from another.
+func cross(g *hx.Gen, as, bs []string) {
+	seen := map[string]bool{}
+	for _, a := range as {
+		for _, b := range bs {
+			k := "pair." + a + "+" + b
+			if !seen[k] {
+				seen[k] = true
+				g.Stat(k)
+			}
+		}
+	}
+}
+
+// pairs counts every unordered pair of the features of one generated case.
+func pairs(g *hx.Gen, feats ...string) {
+	sort.Strings(feats)
+	for i := range feats {
+		for j := i + 1; j < len(feats); j++ {
+			if feats[i] != feats[j] {
+				g.Stat("pair." + feats[i] + "+" + feats[j])
+			}
 		}
 	}
 }
